@@ -13,7 +13,7 @@ Inductive citem := IGlyph (g : glyph) | IRange (a b : str) | IRef (c : N).
 Inductive goc := OGlyph (g : glyph) | OClass (items : list citem).   (* `@c` is OClass [IRef c] *)
 
 Record sflag := mkSF { sf_rtl : bool; sf_ibase : bool; sf_ilig : bool; sf_imark : bool;
-                       sf_filter : option (list citem) }.
+                       sf_filter : option (list citem); sf_mattach : option (list citem) }.
 
 Inductive inline := InlNone | InlNull | InlSub (repl : list goc).
 
@@ -129,13 +129,16 @@ Fixpoint resolve_gocs (env : list (N * list glyph)) (l : list goc) : option (lis
               end
   end.
 
+Definition resolve_oclass (env : list (N * list glyph)) (o : option (list citem)) : option (option (list glyph)) :=
+  match o with
+  | None => Some None
+  | Some items => option_map Some (resolve_items env items)
+  end.
+
 Definition resolve_flag (env : list (N * list glyph)) (f : sflag) : option lflag :=
-  match sf_filter f with
-  | None => Some (mkF (sf_rtl f) (sf_ibase f) (sf_ilig f) (sf_imark f) None)
-  | Some items => match resolve_items env items with
-                  | Some c => Some (mkF (sf_rtl f) (sf_ibase f) (sf_ilig f) (sf_imark f) (Some c))
-                  | None => None
-                  end
+  match resolve_oclass env (sf_filter f), resolve_oclass env (sf_mattach f) with
+  | Some fs, Some ma => Some (mkF (sf_rtl f) (sf_ibase f) (sf_ilig f) (sf_imark f) fs ma)
+  | _, _ => None
   end.
 
 (* validate_single_sub_inputs + zip with into_iter_for_target: aligned target / replacement lists *)
